@@ -15,6 +15,7 @@ import (
 
 	"github.com/polynetwork/poly/common"
 	"github.com/polynetwork/poly/common/config"
+	"github.com/polynetwork/poly/core/ledger"
 	scommon "github.com/polynetwork/poly/core/store/common"
 	"github.com/polynetwork/poly/core/store/leveldbstore"
 	"github.com/polynetwork/poly/core/store/overlaydb"
@@ -68,6 +69,12 @@ func New(netID uint32) *Env {
 		panic(err)
 	}
 	config.DefConfig.P2PNode.NetworkId = netID
+	// side_chain_manager's encoders consult ledger.DefLedger (nil here) unless this fork check is
+	// off; off = the post-fork encoding (ExtraInfo always written), which is what production uses
+	// above config.EXTRA_INFO_HEIGHT.
+	if ledger.DefLedger == nil {
+		config.EXTRA_INFO_HEIGHT_FORK_CHECK = false
+	}
 	ov := overlaydb.NewOverlayDB(st)
 	return &Env{Store: st, Overlay: ov, Cache: storage.NewCacheDB(ov), ChainID: config.GetChainIdByNetId(netID), Height: 1, Time: 1600000000}
 }
